@@ -86,6 +86,13 @@ def _purify(assertions, ctx):
             if key not in fresh:
                 fresh[key] = z3.Const("sel!%d" % len(fresh), e.sort())
             r = fresh[key]
+        elif dk == z3.Z3_OP_UNINTERPRETED and not z3.is_array(e):
+            # application of an uninterpreted function (sin, cos, a spec function): a fresh constant per distinct
+            # application (congruence dropped: sound for `unsat`)
+            key = e.sexpr()
+            if key not in fresh:
+                fresh[key] = z3.Const("app!%d" % len(fresh), e.sort())
+            r = fresh[key]
         else:
             if dk == z3.Z3_OP_UNINTERPRETED or dk in (z3.Z3_OP_STORE, z3.Z3_OP_CONST_ARRAY):
                 ok[0] = False
@@ -96,9 +103,16 @@ def _purify(assertions, ctx):
                 r = e
         cache[k] = r
         return r
-    out = [walk(a) for a in assertions]
+    out = []
+    for a in assertions:
+        ok[0] = True
+        w = walk(a)
+        if ok[0]:
+            out.append(w)
+        # an assertion that is not pure arithmetic after purification (quantified, array-valued) is left out: fewer
+        # hypotheses can only make `unsat` harder, never wrong
     _purify.last_selects = {str(v): k for k, v in fresh.items()}
-    return out if ok[0] else None
+    return out or None
 
 
 _purify.last_selects = {}
@@ -107,7 +121,8 @@ _purify.last_selects = {}
 def _solve_one(task):
     """Portfolio over (stage x hypothesis set): cheap stages first, each on the relevance-filtered hypotheses
     (when they differ from the full set) and then on all hypotheses.  `sat` is only believed from the full set."""
-    name, smt2, timeout_s, want_model, smt2_rel, smt2_cone = task
+    name, smt2, timeout_s, want_model, smt2_rel, smt2_cone = task[:6]
+    prefer = task[6] if len(task) > 6 else None
     import z3
     t0 = time.time()
     out = dict(name=name, verdict="unknown", backend=None, time=0.0, model=None, detail="")
@@ -121,7 +136,31 @@ def _solve_one(task):
     # z3 5.1 command-line front end first: on the quantified VCs it is often far quicker than the API solver object
     # on the very same text (measured: 0.25 s against > 100 s on C12's interval-DP invariant)
     cli = _z3_cli()
-    if cli:
+    if prefer:
+        # the back end (and hypothesis variant) that discharged this obligation on the baseline tree goes first
+        pb, pt = prefer
+        suffix = "+cone" if pb.endswith("+cone") else ("+relevant-hyps" if pb.endswith("+relevant-hyps") else "")
+        text = dict(texts).get(suffix)
+        budget = min(max(10.0, 4 * pt + 5), max(timeout_s, 10.0) * 2)
+        r = None
+        if text:
+            try:
+                if pb.startswith("z3-cli") and cli:
+                    r = _run_cli([cli, "-t:%d" % int(budget * 1000)], text, budget + 5)
+                elif pb.startswith("z3-linearized"):
+                    r = _stage(z3, "z3-linearized", {"linearize": True}, budget, text, False, out)
+                elif pb.startswith("z3-nlsat"):
+                    r = _stage(z3, "z3-nlsat", {"nlsat": True}, budget, text, False, out)
+                elif pb.startswith("z3-arith2"):
+                    r = _stage(z3, "z3-arith2", {"smt.arith.solver": 2}, budget, text, False, out)
+                elif pb.startswith("z3-5"):
+                    r = _stage(z3, "z3", {}, budget, text, False, out)
+            except Exception:
+                r = None
+        if r == "unsat":
+            out["verdict"], out["backend"] = "unsat", pb
+            done = True
+    if cli and not done:
         for suffix, text in texts:
             r = _run_cli([cli, "-t:%d" % int(min(timeout_s, 10.0) * 1000)], text, min(timeout_s, 10.0) + 5)
             if r == "unsat":
@@ -202,7 +241,15 @@ def _stage(z3, label, opts, tmo, smt2, want_model, out):
         if "(* " not in smt2 and "(/ " not in smt2:
             return None
         s.from_string(smt2)
-        pure = _purify(s.assertions(), ctx)
+        pre = z3.Goal(ctx=ctx)
+        for a in s.assertions():
+            pre.add(a)
+        try:
+            simp = z3.Then(z3.Tactic("simplify", ctx), z3.Tactic("propagate-values", ctx), ctx=ctx)(pre)[0]
+            base = [simp[i] for i in range(len(simp))]
+        except Exception:
+            base = list(s.assertions())
+        pure = _purify(base, ctx)
         if pure is None:
             return None
         tac = z3.Then(z3.Tactic("simplify", ctx), z3.Tactic("propagate-values", ctx), z3.Tactic("solve-eqs", ctx),
@@ -309,7 +356,7 @@ def _scalar(e):
 
 def solve_all(obligations, timeout_s=20, procs=None, want_model=True):
     tasks = [(o["name"], o["smt2"], min(timeout_s, 5) if o.get("kind") == "cover" else min(timeout_s, o.get("kind_timeout", timeout_s)), want_model,
-              o.get("smt2_rel"), o.get("smt2_cone")) for o in obligations]
+              o.get("smt2_rel"), o.get("smt2_cone"), o.get("prefer")) for o in obligations]
     if not tasks:
         return []
     procs = procs or min(16, os.cpu_count() or 4, len(tasks))
